@@ -1129,3 +1129,5 @@ B('C18', 'bind without its freshness side condition', VM,
   "            if lhs.occurs_var(rv):\n                raise VeriTException(\"bind\", \"bound variable of rhs occurs free in lhs\")\n", "", 'C18.R25', 'BindMacro')
 N('C18', 'bind tests freshness through the list of free variables', VM,
   "            if lhs.occurs_var(rv):\n                raise VeriTException(\"bind\", \"bound variable of rhs occurs free in lhs\")\n", "            if rv in lhs.get_vars():\n                raise VeriTException(\"bind\", \"bound variable of rhs occurs free in lhs\")\n")
+B('C19', 'sum under a power without parentheses', 'integral/rules.py',
+  "                return normal(rec(x) / (Const(1) + (x ^ Const(2))))", "                return normal(rec(x) / (Const(1) + x ^ Const(2)))", 'C19.E10', 'deriv')
